@@ -18,8 +18,10 @@ open Scenic.Expr Scenic.Support Scenic.Gen
 
 /-! ## side conditions on generated data -/
 
-/-- every identity simplification in the code is a sound identity on numbers, and the zero-identity flags of the
-    vector operators are the ones the model of `Vector.__add__ / __radd__ / __sub__` assumes -/
+/-- every identity simplification in the code is a sound identity on numbers, the zero-identity flags of the
+    vector operators are the ones the model of `Vector.__add__ / __radd__ / __sub__` assumes, and the code has the
+    three repaired shapes the model is a model of (3236edde Python's own operator dispatch in `sampleGiven`,
+    2964538d the VectorDistribution handler accepts tuples/lists, e4f79cbd the vector operators wrap their operands) -/
 theorem gen_tables_wf : exprTables.WF = true := by decide
 
 /-- `supportInterval` pairs each operator with its own formula -/
@@ -60,11 +62,20 @@ theorem gen_formulas_sound : supportFormulas.Sound where
     intro l r x h1 h2
     constructor <;> intro b hb <;> simp only [supportFormulas, Option.some.injEq] at hb <;> subst hb <;>
       split_ifs <;> (try unfold rmax) <;> (try split_ifs) <;> linarith
+  hypAbs := by
+    intro l r x h1 h2
+    simp only [supportFormulas, absR]
+    refine ⟨?_, ?_, ?_⟩ <;> split_ifs <;> linarith
 
-/-- every function declared `monotonicDistributionFunction` is one the model has classified: `max`, `min` (monotone,
-    `support_sound` covers them) or `hypot` (**not** monotone: `hypot_not_monotone`; finding
-    support:hypot-declared-monotonic, replayed on the real code by the check while it is still declared) -/
-theorem gen_monotone_classified : monotoneDeclared.all (fun f => f ∈ ["max", "min", "hypot"]) = true := by decide
+/-- every function declared `monotonicDistributionFunction` is monotone: only `max` and `min` may be (`hypot` is
+    not: `hypot_not_monotone`; it has its own support function, whose per-argument transform is `hypAbs`) -/
+theorem gen_monotone_classified : monotoneDeclared.all (fun f => f ∈ ["max", "min"]) = true := by decide
+
+/-- two repaired shapes of code outside the Lean model (checked on the real code by the direct oracle only):
+    `scalarOperator` samples a Vector with random coordinates it is applied to (3b90c565), and the selector of a
+    MultiplexerDistribution is not stored in an attribute that shadows a method of the sampled values (e1aeac6d) -/
+theorem gen_unmodelled_repairs_in_place :
+    scalarOperatorSamplesSelf = true ∧ multiplexerSelectorPrivate = true := by decide
 
 /-- the operators that capture expressions are the ones modelled (`__divmod__`, `__round__`, `__call__` are exercised
     by the direct oracle only) -/
@@ -77,19 +88,24 @@ theorem gen_operators_known :
 
 /-! ## the property theorems on the generated data -/
 
-/-- On the supported fragment, the value an expression over random values takes in a scene (the forest Scenic builds,
-    sampled) equals what ordinary Python computes from the sampled leaves.
+/-- The value an expression over random values takes in a scene (the forest Scenic builds, sampled) equals what
+    ordinary Python computes from the sampled leaves.
 
-    Full statement: `∀ env e, evalNode exprTables env (build exprTables e) = evalPy env e`.  It is false of the
-    unchanged code (`Expr.reflected_concat_witness`; findings operator-dispatch:*, vector-handler-sequence-operand);
-    `supportedB` (Model/ExprSupported.lean) spells out what is excluded: the places where the model itself shows a
-    difference (reflected `+`/`-` on sampled sequences with the getattr emulation of `sampleGiven`, sequence operands
-    of the VectorDistribution handler, a constant container indexed by a random value, `*` applied to a Vector with
-    random coordinates, `str % x`), the lazily discarded parts of raw tuples (Scenic evaluates only what is used),
-    and arithmetic on raw tuples (`(x, 1) + (2,)`, not attempted). -/
+    `supportedB` (Model/ExprSupported.lean, evaluated by the driver for every explored case) excludes only the places
+    where the model itself shows that Scenic and plain Python differ — no shape is excluded because its proof was not
+    attempted: a short all-zero sequence added to a constant Vector (`Expr.short_zero_sequence_witness`; finding
+    vector-zero-identity-short-sequence), `str % x`, a constant container indexed by a random value (rejected with
+    TypeError while compiling), the lazily discarded parts of raw tuples (Scenic evaluates only what is used), and
+    `*v` for a Vector with random coordinates (rejected while compiling).  The unconditional statement
+    `∀ env e, evalNode exprTables env (build exprTables e) = evalPy env e` is false for exactly these reasons, hence
+    the name. -/
 theorem forest_eval_eq_python_partial (env : Env) (e : Expr) (h : supportedB exprTables env e = true) :
     evalNode exprTables env (build exprTables e) = evalPy env e :=
   Expr.forest_eval_eq_python exprTables gen_tables_wf env e h
+
+/-- a VectorOperatorDistribution is only ever built on an object whose static type is Vector (so that its
+    `getattr(first, op)(*rest)` finds the Vector method) -/
+theorem build_vecWF (e : Expr) : vecWF (build exprTables e) = true := Expr.build_vecWF exprTables e
 
 /-- non-vacuity: a nested expression with identity-shaped constants, a reflected operator, a literal, indexing and a
     starred call is inside the fragment, and is not constant -/
@@ -110,26 +126,27 @@ theorem simp_table_sound (e : SimpEntry) (he : e ∈ exprTables.simp) (x : Rat) 
 
 example : (⟨.mul, true, 1⟩ : SimpEntry) ∈ exprTables.simp := by decide
 
-/-- whenever `supportInterval` reports bounds, every value the distribution can take lies inside them
-    (operators + − × ÷ and their reflected forms, neg, abs, Range, DiscreteRange, Options / attribute-of-Options,
-    max / min, TruncatedNormal).
-
-    Full statement: the same for every function declared `monotonicDistributionFunction` in geometry.py.  Missing:
-    `hypot`, for which it is false (`hypot_declared_monotone_witness`; finding support:hypot-declared-monotonic). -/
-theorem support_sound_partial (ivs : Nat → Supp) (leafSem : Nat → Rat → Prop)
+/-- whenever `supportInterval` reports bounds, every value the distribution can take lies inside them:
+    operators + − × ÷ and their reflected forms, neg, abs, Range, DiscreteRange, Options / attribute-of-Options,
+    TruncatedNormal, and every function of geometry.py that has a support function — `max` / `min`
+    (`monotonicDistributionFunction`) and `hypot` (`_hypotSupport`).  `hyp` stands for `math.hypot` on floats, of
+    which only monotonicity in the absolute values of the arguments is assumed. -/
+theorem support_sound (hyp : List Rat → Rat) (hH : HypMono hyp) (ivs : Nat → Supp) (leafSem : Nat → Rat → Prop)
     (hleaf : ∀ i v, leafSem i v → within (ivs i) v) (e : SExpr) (s : Supp) (v : Rat)
-    (hs : support supportFormulas ivs e = some s) (hv : Sem leafSem e v) : within s v :=
-  Support.support_sound supportFormulas gen_formulas_sound gen_support_table_ok ivs leafSem hleaf e s v hs hv
+    (hs : support supportFormulas hyp ivs e = some s) (hv : Sem hyp leafSem e v) : within s v :=
+  Support.support_sound supportFormulas gen_formulas_sound gen_support_table_ok hyp hH ivs leafSem hleaf e s v hs hv
 
 /-- non-vacuity: `abs(Range(-3, 1)) * Range(2, 4)` reports the bounds [0, 12] -/
-example : support supportFormulas (fun _ => (none, none))
+example : support supportFormulas (fun _ => 0) (fun _ => (none, none))
     (.bin .mul false (.un .abs (.range (.const (-3)) (.const 1))) (.range (.const 2) (.const 4))) =
       some (some 0, some 12) := by decide +kernel
 
-/-- `hypot` is declared monotone in geometry.py although it is not: with bounds [-3, 1] the reported support is
-    [hypot(-3), hypot(1)] = [3, 1], which does not contain hypot(0) = 0 (squares compared) -/
-theorem hypot_declared_monotone_witness : ¬ ∀ x y : Rat, x ≤ y → hypotSq [x] ≤ hypotSq [y] :=
-  hypot_not_monotone
+/-- non-vacuity for `hypot` (regression 57b1c90f): the bounds of `hypot(Range(-3, 1), 2)` are
+    `(hyp [0, 2], hyp [3, 2])` — computed from the absolute values — and not `(hyp [-3, 2], hyp [1, 2])` -/
+example (hyp : List Rat → Rat) : support supportFormulas hyp (fun _ => (none, none))
+    (.hypot [.range (.const (-3)) (.const 1), .const 2]) = some (some (hyp [0, 2]), some (hyp [3, 2])) := by
+  simp [support, supportList, unionOfSupports, supFold, hypSupport, hypBounds, supportFormulas, rmin, rmax]
+  norm_num
 
 /-- delayed arguments and `self.`-dependent defaults are evaluated against the final property values -/
 theorem delayed_eval_final {α} (pre : List (Delayed.Spec α)) (s : Delayed.Spec α) (post : List (Delayed.Spec α))
